@@ -21,7 +21,7 @@ Row(kind, hasDepth, chain, adds) == [kind |-> kind, hasDepth |-> hasDepth, chain
 
 \* chain: forwarding functions from the public entry point inwards;
 \* adds: what each of them adds to the depth it passes on
-ApiTable(D) ==
+ApiTableBase(D) ==
   [ api \in {"none"} |-> Row("stack", FALSE, <<>>, <<>>) ] @@
   ( "errors.New" :> Row("stack", FALSE, <<"errors.New", "errutil.NewWithDepth">>, <<1, 1>>) ) @@
   ( "errors.NewWithDepth" :> Row("stack", TRUE, <<"errors.NewWithDepth", "errutil.NewWithDepth">>, <<1, 1>>) ) @@
@@ -78,6 +78,22 @@ ApiTable(D) ==
   ( "domains.Handled" :> Row("domain", FALSE, <<"domains.Handled">>, <<1>>) ) @@
   ( "domains.PackageDomain" :> Row("domain", FALSE, <<"domains.PackageDomain">>, <<1>>) ) @@
   ( "domains.PackageDomainAtDepth" :> Row("domain", TRUE, <<>>, <<>>) )
+
+\* argument variants that take another path inside the same functions (empty
+\* message or format, %w and error operands, nil operands): same chain, same attribution
+Variants == [v \in {"errors.Wrap#empty", "errors.WrapWithDepth#empty", "errors.Wrapf#empty",
+                    "errors.WrapWithDepthf#empty", "errors.New#empty", "errors.Newf#w", "errors.NewWithDepthf#w",
+                    "errors.WrapWithDepthf#err", "errors.Join#nil", "errutil.Wrap#empty",
+                    "errutil.WrapWithDepth#empty", "errutil.WrapWithDepthf#empty"} |->
+               CASE v = "errors.Wrap#empty" -> "errors.Wrap" [] v = "errors.WrapWithDepth#empty" -> "errors.WrapWithDepth"
+                 [] v = "errors.Wrapf#empty" -> "errors.Wrapf" [] v = "errors.WrapWithDepthf#empty" -> "errors.WrapWithDepthf"
+                 [] v = "errors.New#empty" -> "errors.New" [] v = "errors.Newf#w" -> "errors.Newf"
+                 [] v = "errors.NewWithDepthf#w" -> "errors.NewWithDepthf" [] v = "errors.WrapWithDepthf#err" -> "errors.WrapWithDepthf"
+                 [] v = "errors.Join#nil" -> "errors.Join" [] v = "errutil.Wrap#empty" -> "errutil.Wrap"
+                 [] v = "errutil.WrapWithDepth#empty" -> "errutil.WrapWithDepth"
+                 [] v = "errutil.WrapWithDepthf#empty" -> "errutil.WrapWithDepthf"]
+BaseTable(D) == ApiTableBase(D)
+ApiTable(D) == BaseTable(D) @@ [v \in DOMAIN Variants |-> BaseTable(D)[Variants[v]]]
 
 Apis(D) == DOMAIN ApiTable(D) \ {"none"}
 
